@@ -20,4 +20,5 @@ INVARIANT P2_DataIsLive
 INVARIANT P3_CompleteOnce
 INVARIANT P4_ViolationCodes
 INVARIANT P5_SilentAfterClose
+INVARIANT P6_PongPerPing
 INVARIANT MonitorInSync
